@@ -60,6 +60,10 @@ pub fn gen_tree(r: &mut Rng, with_md_md: bool) -> Vec<(String, String)> {
     files.push(("notes.txt".to_string(), "not a note\n".to_string()));
     files.push(("d/readme.markdown".to_string(), "* keep   me  *\n".to_string()));
     files.push(("img/pic.png".to_string(), "PNG".to_string()));
+    // files whose extension is `md` in another case are not notes (the loader compares `md` exactly): untouched, and
+    // no lower-case twin appears next to them
+    files.push(("README.MD".to_string(), "*  upper case extension  *\n".to_string()));
+    files.push(("d/CHANGES.Md".to_string(), "*  mixed case extension  *\n".to_string()));
     if with_md_md {
         files.push(("x.md.md".to_string(), "# double\n".to_string()));
     }
